@@ -3,6 +3,7 @@ import Holpy.C16.Model
 import Holpy.C16.SimplexModel
 import Holpy.C16.SimplexBB
 import Holpy.C16.StrictModel
+import Holpy.C16.StrictSimplexModel
 /-
 Line protocol for the C16 model (one s-expression in, one out):
   (omega FUEL ROWS)          -> (sat ((var val) ...) W) | (contr DERIV C) | noconcl | (error KIND)
@@ -18,6 +19,8 @@ Line protocol for the C16 model (one s-expression in, one out):
                                 STATE = ((basic ...) ((var value) ...)) after every check(), value = p/q
   (bb FUEL BUDGET PICKS INEQS) -> ((found ((var value) ...)) | none | gaveup | fuel | badpick) NODES   model of branch_and_bound;
                                 PICKS = the variables find_not_int_var chose in the real run, in order
+  (ssimplex FUEL INEQS)      -> like `simplex` for simplex_strict.Simplex: INEQS = ((ge|le ((var coeff) ...) BX BY) ...),
+                                values are pairs: STATE = ((basic ...) ((var x y) ...)), ATOMS = ((ge|le var x y) ...)
   (delta ((X1 Y1 X2 Y2) ...))  -> (MULTI B ...)   multi_delta of the pairs (Pair(X1,Y1), Pair(X2,Y2)) and binary_delta of each
                                 (none where p1 <= p2 fails); rationals as p/q
 ROWS = (ROW ...), ROW = (c1 ... cn c0), DERIV = (asm ROW) | (rc I D D) | (gcd D) | (dc D D)
@@ -114,6 +117,32 @@ def handleBB (fuel budget : Nat) (picks : List Nat) (qs : List Ineq) : String :=
     | .badPick => .atom "badpick"
   toString (Sexp.list [rs, Sexp.ofNat n])
 
+open Holpy.C16.Simplex Holpy.C16.StrictSimplex in
+def handleSSimplex (fuel : Nat) (qs : List PIneq) : String :=
+  let (s0, atoms) := addIneqsP emptyP qs
+  let (o, tr) := handleAssertionP fuel s0 atoms 0 []
+  let oc : Sexp := match o with
+    | .sat _ => .atom "sat"
+    | .unsat xi _ => .list [.atom "unsat", Sexp.ofNat xi]
+    | .conflict k _ => .list [.atom "conflict", Sexp.ofNat k]
+    | .fuel _ => .atom "fuel"
+  let st (s : PState) : Sexp :=
+    .list [.list (s.sx.rows.map fun r => Sexp.ofNat r.1), .list (s.sx.vars.map fun x => .list [Sexp.ofNat x, ratTo (s.sx.mapping x), ratTo (s.my x)])]
+  let atomS (a : PAtom) : Sexp := match a with
+    | .geq x c => .list [.atom "ge", Sexp.ofNat x, ratTo c.x, ratTo c.y]
+    | .leq x c => .list [.atom "le", Sexp.ofNat x, ratTo c.x, ratTo c.y]
+  toString (Sexp.list ([oc, .list (atoms.map atomS), st s0] ++ tr.map st))
+
+open Holpy.C16.Simplex Holpy.C16.StrictSimplex in
+def pineqOf : Sexp → Option PIneq
+  | .list [.atom k, js, bx, by_] => do
+    let kind ← if k == "ge" then some Kind.ge else if k == "le" then some Kind.le else none
+    let jars ← (← js.toList?).mapM fun
+      | .list [x, c] => do some ((← x.toNat?), ((← c.toInt?) : Rat))
+      | _ => none
+    some ⟨kind, jars, ⟨← ratOf bx, ← ratOf by_⟩⟩
+  | _ => none
+
 def handle (line : String) : String :=
   match Sexp.parse line with
   | some (.list [.atom "omega", fuel, rows]) =>
@@ -157,6 +186,10 @@ def handle (line : String) : String :=
       | some r => toString (rowTo r)
       | none => "none"
     | _, _, _ => "bad-op"
+  | some (.list [.atom "ssimplex", fuel, qs]) =>
+    match fuel.toNat?, (qs.toList?.bind fun l => l.mapM pineqOf) with
+    | some f, some qs => handleSSimplex f qs
+    | _, _ => "bad-op"
   | some (.list [.atom "delta", ps]) =>
     match (ps.toList?.bind fun l => l.mapM fun
         | .list [a, b, c, d] => do some ((⟨← ratOf a, ← ratOf b⟩ : Holpy.C16.Strict.Pair), (⟨← ratOf c, ← ratOf d⟩ : Holpy.C16.Strict.Pair))
